@@ -438,3 +438,20 @@ package tags
 //@ loop 1 invariant members: forall(i, 0, len(keys), has(m, keys[i]) && visited(keys[i]))
 //@ loop 1 invariant subset: forall(k, "Str", visited(k) ==> has(m, k))
 //@ loop 1 invariant distinct: forall(i, 0, len(keys), forall(j, 0, i, keys[i] != keys[j]))
+
+// ---- iteration wrappers: panic-freedom (C01, C11) ------------------------------------------
+//@ typeinv tags.sliceWrapper: rv_valid(self) && (rvkind(self) == reflect.Array || rvkind(self) == reflect.Slice)
+//@ func (tags.sliceWrapper).Len
+//@ pure
+//@ props C01 C11
+//@ ensures def: result == pl_len(rv_val(w)) && result >= 0
+//@ func (tags.sliceWrapper).Index
+//@ props C01 C11
+//@ panics nothing
+//@ requires inrange: 0 <= i && i < pl_len(rv_val(w))
+//@ assigns nothing
+//@ func (tags.mapSliceWrapper).Index
+//@ props C01 C11
+//@ panics nothing
+//@ requires inrange: 0 <= i && i < len(w.ms)
+//@ assigns alloc S$Val
